@@ -14,15 +14,22 @@ func H_C04_update() {
 	vxrt.CI(false)
 	dir := vxrt.Dir()
 	path := dir + "/f.snap"
-	k := vxrt.Len("frames", 1, vxrt.Param("frames", 2))
+	k := vxrt.Len("frames", vxrt.Param("minframes", 1), vxrt.Param("frames", 2))
 	n := vxrt.Param("n", 3)
 	ascii := vxrt.Param("ascii", 1) == 1
 	names := []string{"TestA", "TestB", "TestC"}
 	old := make([]string, k)
 	content := ""
+	structured := vxrt.Param("struct", 0) == 1
+	gen := func(label string) string {
+		if structured {
+			return structText(label, vxrt.Param("lines", 2))
+		}
+		return symText(label, n, ascii)
+	}
 	for i := 0; i < k; i++ {
-		old[i] = symText("old", n, ascii)
-		content += frame(names[i]+" - 1", escapeEndChars(old[i]))
+		old[i] = gen("old")
+		content += frame(names[i]+" - 1", escapeRef(old[i]))
 	}
 	writeFile(path, content)
 
@@ -32,7 +39,7 @@ func H_C04_update() {
 	for i := 0; i < k; i++ {
 		if vxrt.Bool("changes") {
 			changed[i] = true
-			newv[i] = symText("new", n, ascii)
+			newv[i] = gen("new")
 			vxrt.Assume(differs(old[i], newv[i]))
 			if vxrt.Param("known_K1", 1) == 1 {
 				vxrt.Assume(vxrt.Not(k1EscapeAlias(old[i], newv[i])))
@@ -59,7 +66,7 @@ func H_C04_update() {
 	// the file is exactly the frames with the new values, in place, no residue
 	want := ""
 	for i := 0; i < k; i++ {
-		want += frame(names[i]+" - 1", escapeEndChars(newv[i]))
+		want += frame(names[i]+" - 1", escapeRef(newv[i]))
 	}
 	vxrt.Assert(vxrt.Eq(readFile(path), want), "C04:file-is-exactly-the-new-frames")
 
